@@ -30,6 +30,7 @@ import (
 	"regexp"
 	"strconv"
 	"strings"
+	"unicode"
 
 	antlr "github.com/antlr/antlr4/runtime/Go/antlr/v4"
 	"github.com/cockroachdb/apd/v2"
@@ -1105,6 +1106,9 @@ func parseSmallUint(str string) uint64 {
 
 func parseHexCodepoint(str string) rune {
 	if v, err := strconv.ParseUint(str, 16, 32); err == nil {
+		if v > unicode.MaxRune || (v >= 0xd800 && v <= 0xdfff) {
+			panic(fmt.Errorf("%x is not a valid Unicode codepoint", v))
+		}
 		return rune(v)
 	} else {
 		panic(err)
